@@ -62,8 +62,55 @@ fn pick_cap(rng: &mut Rng, text_len: usize, default_div: usize) -> Option<usize>
     }
 }
 
+/// Thread churn: client 0 stays on one OS thread, client 1 moves to a fresh OS thread after
+/// every call (~70 thread creations and exits, with thread-local destructors, in one run).
+fn generate_churn(seed: u64, g: &GenCtx, rng: &mut Rng) -> Scenario {
+    let mut sources: Vec<SrcEntry> = Vec::new();
+    let first = g.pick_source(rng);
+    let n = g.cat.sources.len();
+    for k in 0..4usize {
+        let mut c = (first + k * 2).min(n - 1);
+        if g.exclude.contains(&g.cat.sources[c].id) || g.cat.sources[c].text.len() > 400 {
+            c = first;
+        }
+        let s = &g.cat.sources[c];
+        sources.push(SrcEntry {
+            id: s.id.clone(),
+            text: s.text.clone(),
+            expect: g.refs.get(&s.id).cloned().unwrap_or_else(|| "?".into()),
+        });
+    }
+    let plain = |src: usize| {
+        Op::Lex(LexOp {
+            src,
+            placement: Placement::Exact,
+            knobs: Knobs::default(),
+            shrink_at: vec![],
+            crash: None,
+            keep: false,
+        })
+    };
+    let long_lived: Vec<Op> = (0..10).map(|k| plain(k % 4)).collect();
+    let mut churner = Vec::new();
+    for k in 0..70usize {
+        churner.push(plain((k + 1) % 4));
+        churner.push(Op::Migrate);
+    }
+    Scenario {
+        seed,
+        strategy: Strategy::Random { quantum: 64 },
+        junk: None,
+        sources,
+        clients: vec![long_lived, churner],
+        schedule: None,
+    }
+}
+
 pub fn generate(seed: u64, g: &GenCtx) -> Scenario {
     let mut rng = Rng::derive(seed, 0x9E4);
+    if rng.below(200) == 0 {
+        return generate_churn(seed, g, &mut rng);
+    }
     let n_clients = match rng.below(100) {
         0..=7 => 1,
         8..=42 => 2,
